@@ -19,3 +19,11 @@ add("C01", "E1", "model_checking",
     "in-memory S3 is strongly consistent with AWS conditional-write semantics; local backend uses real flock/rename on tmpfs; "
     "the virtual clock replaces wall time; no unsynchronised shared memory between points (shared-field audit in DESIGN.md).",
     "DESIGN.md 2.4 E1, 3 C01")
+add("C06", "E1", "model_checking",
+    "stateless interleaving exploration (collector || transactions) on the real code with state cache",
+    "Every interleaving of one collector with a committing / rolling-back / conflicting transaction, at shared-storage-"
+    "operation granularity, local and CAS-S3, with the transaction's files on both sides of the grace period; "
+    "2 actors unbounded, 3 actors under a stated preemption bound. Oracle: every file of every snapshot of the final "
+    "metadata exists and parses (independent reader).",
+    "Same engine assumptions as C01; grace 1 h vs. millisecond virtual runs (the property's proviso).",
+    "DESIGN.md 3 C06")
